@@ -25,7 +25,8 @@ def run(ctx):
     # panics confined to one connection (child process): the victim is counted once all the same, with the labels known when it panicked
     PANIC_BAG = {'getcertificate': {'ok=0,proto=': 1, 'ok=1,proto=h2': 1, 'ok=1,proto=http/1.1': 2},      # panic during the handshake
                  'connstate-h2': {'ok=1,proto=h2': 2, 'ok=1,proto=http/1.1': 2},                          # panic inside ServeConn of a completed h2 connection
-                 'connstate-h1': {'ok=1,proto=h2': 1, 'ok=1,proto=http/1.1': 3}}                          # panic on the internal server's accept path (HTTP/1.1)
+                 'connstate-h1': {'ok=1,proto=h2': 1, 'ok=1,proto=http/1.1': 3},
+                 'counterror-h2': {'ok=1,proto=h2': 2, 'ok=1,proto=http/1.1': 2}}                         # panic in a callback of the HTTP/2 serve loop, confined by serveConn's recover                          # panic on the internal server's accept path (HTTP/1.1)
     npanic = 0
     for sc in report:
         if sc['family'] == 'panic' and not sc.get('error') and sc.get('child_metrics') is not None and sc.get('survived'):
